@@ -13,6 +13,7 @@ type failWriter struct {
 	acc       bytes.Buffer
 	calls     []string // data-less calls (Flush, Sync, Close) the library made
 	transient bool     // only the Write that crosses offset k fails; later ones are accepted again
+	fullCount bool     // the failing Write takes all bytes and reports the error with the full count (write-then-sync style)
 	failed    bool
 }
 
@@ -29,8 +30,12 @@ func (w *failWriter) Write(p []byte) (int, error) {
 	if room < 0 {
 		room = 0
 	}
-	w.acc.Write(p[:room])
 	w.failed = true
+	if w.fullCount {
+		w.acc.Write(p)
+		return len(p), errInjected
+	}
+	w.acc.Write(p[:room])
 	return room, errInjected
 }
 
@@ -180,6 +185,23 @@ func runC10Write(c Case, m *Model, v *Verdict) {
 			v.Counts["write-faults-transient"]++
 			if ft.failed && errT == nil {
 				v.Oracle = append(v.Oracle, fmt.Sprintf("one Write of the destination failed (at offset %d of %d, later Writes succeeded) but WriteTo returned nil :: %s", k, n, short(c.Op)))
+			}
+		}
+		// ... and as a failure reported together with the full count (the bytes were taken, committing them failed),
+		// once for good and once recovering
+		if k < n {
+			for _, tr := range []bool{false, true} {
+				ff := &failWriter{k: k, fullCount: true, transient: tr}
+				var errF error
+				if p := try(func() { _, errF = h.build().WriteTo(writerVariant(ff, i+2)) }); p != "" {
+					v.Oracle = append(v.Oracle, fmt.Sprintf("panic while writing into a destination that reports a failure with the full count (k=%d): %s", k, p))
+					return
+				}
+				v.Counts["write-faults-fullcount"]++
+				if ff.failed && errF == nil {
+					v.Oracle = append(v.Oracle, fmt.Sprintf("a Write of the destination returned an error together with the full count (at offset %d of %d, transient=%v) but WriteTo returned nil :: %s", k, n, tr, short(c.Op)))
+					break
+				}
 			}
 		}
 		// tie
